@@ -499,7 +499,7 @@ func execShared(c SharedCase) kit.Outcome {
 
 func TestSharedValues(t *testing.T) {
 	defer stopServer()
-	kit.Check(t, kit.Spec[SharedCase]{Sub: "shared", Quick: 4, Thorough: 80,
+	kit.Check(t, kit.Spec[SharedCase]{Sub: "shared", Quick: 4, Thorough: 24,
 		Gen: func(t *rapid.T) SharedCase {
 			return SharedCase{Elems: rapid.SampledFrom([]int{200, 2000, 20000}).Draw(t, "elems"), Readers: rapid.IntRange(1, 4).Draw(t, "readers"),
 				Writers: rapid.IntRange(1, 3).Draw(t, "writers"), Rounds: rapid.SampledFrom([]int{30, 120}).Draw(t, "rounds")}
